@@ -1,0 +1,17 @@
+//go:build verif
+
+package visitors
+
+// Contracts for gvc (see /verif/DESIGN.md). Comment-only: this file adds no code to any build.
+
+// The type-usage visitor walks go/ast: only the shape-independent safety of its func-type branch is under contract
+// (C14: a func type without results - `func(id string)` - has a nil Results list).
+// assumed frame: building a type reference fills the visitor's caches; it does not write into the AST
+//@ func TypeUsageVisitor.buildTypeRef trusted
+//@ func TypeUsageVisitor.buildFuncTypeRef props C14
+//@ requires ft != nil
+//@ requires implies(ft.Params != nil, forall(i, 0, len(ft.Params.List), ft.Params.List[i] != nil))
+//@ requires implies(ft.Results != nil, forall(i, 0, len(ft.Results.List), ft.Results.List[i] != nil))
+//@ ensures implies(result1 == nil, result0 != nil)
+//@ loop 0 invariant fresh(params)
+//@ loop 1 invariant fresh(results)
